@@ -29,10 +29,13 @@ from __future__ import annotations
 
 from dataclasses import dataclass, field
 from fractions import Fraction
+import re
 from typing import Optional
 
 from ttconv.config import ModuleConfiguration
 from ttconv.imsc.attributes import TimeExpressionSyntaxEnum
+
+_FPS_PATTERN = re.compile("([0-9]+)/([0-9]+)")
 
 def parse_time_expression_syntax(config_value: str) -> Optional[TimeExpressionSyntaxEnum]:
   """Parse time expression from string value"""
@@ -56,9 +59,12 @@ class IMSCWriterConfiguration(ModuleConfiguration):
       if value is None:
         return None
 
-      [num, den] = value.split('/')
+      m = _FPS_PATTERN.fullmatch(value) if isinstance(value, str) else None
 
-      return Fraction(int(num), int(den))
+      if m is None or int(m.group(1)) == 0 or int(m.group(2)) == 0:
+        raise ValueError(f"Invalid fps '{value}' value. Expect: '<num>/<denom>'.")
+
+      return Fraction(int(m.group(1)), int(m.group(2)))
   
   @classmethod
   def name(cls):
